@@ -121,9 +121,13 @@ def random_transfer(
         else:
             raise TypeError(f"Ballot {ballot} has no ranking.")
 
-    surplus_ballots = random.sample(
-        [b for b in winner_ballots if b.ranking], int(fpv) - threshold
-    )
+    # the surplus is drawn from all of the winner's unit ballots; a drawn ballot with no
+    # surviving choice is exhausted and transfers nothing
+    surplus_ballots = [
+        b
+        for b in random.sample(winner_ballots[:winner_index], int(fpv) - threshold)
+        if b.ranking
+    ]
     updated_ballots += surplus_ballots
 
     return (
